@@ -90,6 +90,7 @@ fn run_c08(out: &mut Out, tier: &str, rng: &mut Rng) {
 fn run_c11(out: &mut Out, tier: &str, rng: &mut Rng) {
     drv::run_c11(out, tier, rng);
     authgen::run_generic_auth(out, tier, rng, "attribution");
+    authgen::run_transport_timed(out);
     out.rule.push_str(AUTH_NOTE);
 }
 
@@ -170,6 +171,7 @@ fn run_c10(out: &mut Out, tier: &str, rng: &mut Rng) {
     authgen::run_c10(out, tier, rng);
     authgen::run_c10_foreign(out, tier, rng);
     authgen::run_c10_timed(out, tier, rng);
+    authgen::run_transport_timed(out);
     out.rule.push_str("; every inspected parameter group from four foreign addresses per unit kind, each followed by a cycle; unknown configuration entries with their own timeouts between the units; real-time histories in the quick tier too (timeout 300 ms, silences of 450 ms, the unit repeating the same frame)");
 }
 
